@@ -298,6 +298,14 @@ def oracle(ctx):
             "adjoint-of-difference": lambda: (MVR(Amat.transpose(-2, -1).conj().contiguous() * 1.5, False)
                                               - xt.LinearOperator.m(Amat.transpose(-2, -1).conj().contiguous() * 0.5, is_hermitian=False)).H,
         }
+        # products of two non-commuting operators (one of them matrix-free) and their adjoints: (a b)^H = b^H a^H
+        # (round-3 seed C01/8: the factors of the adjoint applied in the un-reversed order)
+        Qf = torch.eye(n, dtype=dtype) + 0.3 * torch.randn(n, n, dtype=dtype) / max(1, n) ** 0.5
+        Pf = Amat @ torch.linalg.inv(Qf)
+        kinds["product"] = lambda: MV(Pf, False).matmul(xt.LinearOperator.m(Qf, is_hermitian=False), is_hermitian=herm)
+        kinds["product-mvr"] = lambda: xt.LinearOperator.m(Pf, is_hermitian=False).matmul(MVR(Qf.expand(*ba, n, n).contiguous(), False), is_hermitian=herm)
+        kinds["adjoint-of-product"] = lambda: MVR(Qf.transpose(-2, -1).conj().contiguous(), False).matmul(
+            xt.LinearOperator.m(Pf.transpose(-2, -1).conj().contiguous(), is_hermitian=False), is_hermitian=False).H
         kind = rng.choice(list(kinds))
         # dense reference, column by column and batch by batch
         full_shape = bshape if mode == "none" else list(torch.broadcast_shapes(tuple(bshape), be))
@@ -375,6 +383,49 @@ def oracle(ctx):
                 ctx.fail("oracle", "solve:%s:small-rhs:silent-but-not-converged" % meth, {"method": meth, "rhs_scale": scale, "options": "defaults"},
                          {"residual_norms": resid.tolist(), "stopping_tolerance": stop.tolist(), "max_abs_X": float(X.abs().max())},
                          "residual within the stopping tolerance, or a ConvergenceWarning")
+    # a right-hand side with an exactly zero column (or batch element) among non-zero ones: that column's solution is zero and
+    # the others converge as usual (round-3 seed C01/7: 0/0 in cg's beta turned the zero column into NaN and stopped the block)
+    gz = torch.Generator().manual_seed(ctx.seed + 29)
+    Az = torch.randn(6, 6, dtype=torch.float64, generator=gz)
+    Az = Az @ Az.T / 6 + 2.0 * torch.eye(6, dtype=torch.float64)
+    An = Az + 0.3 * torch.randn(6, 6, dtype=torch.float64, generator=gz)
+    for zname, Bz in (("zero-column", torch.randn(6, 3, dtype=torch.float64, generator=gz) * torch.tensor([1.0, 0.0, 1.0], dtype=torch.float64)),
+                      ("zero-batch-element", torch.randn(2, 6, 2, dtype=torch.float64, generator=gz) * torch.tensor([1.0, 0.0], dtype=torch.float64)[:, None, None])):
+        # (gmres is outside the convergence clause of the property and fails in LAPACK's lstsq on a zero column: not probed here)
+        for meth, Amz, hz in (("cg", Az, True), ("bicgstab", Az, True), ("bicgstab", An, False), ("cg", An, False),
+                              ("broyden1", Az, True), ("custom_exactsolve", An, False)):
+            try:
+                X, warned = run(lambda: solve(xt.LinearOperator.m(Amz, is_hermitian=hz), Bz, method=meth))
+            except Exception as e:
+                ctx.fail("oracle", "solve:%s:%s:exception" % (meth, zname), {"method": meth}, repr(e)[:300], "a solution")
+                continue
+            ctx.count(("zero-part-of-rhs", zname, meth, hz))
+            refz = torch.linalg.solve(Amz, Bz)
+            errz = float((X - refz).abs().max())
+            if not torch.isfinite(X).all() or warned or not errz <= 1e-4:
+                ctx.fail("oracle", "solve:%s:%s" % (meth, zname), {"method": meth, "hermitian": hz, "options": "defaults", "condition_number": float(torch.linalg.cond(Amz))},
+                         {"warned": warned, "max_error": errz, "finite": bool(torch.isfinite(X).all())}, "silent convergence; zero where the right-hand side is zero")
+    # 1 x 1 systems with the default options, every method, with batches and several columns (round-3 seed C01/9: bicgstab's
+    # default budget int(1.5 n) = 1 and a loop that then never ran)
+    for meth in ("exactsolve", "custom_exactsolve", "cg", "bicgstab", "gmres", "broyden1"):
+        for ba1, nc1, withE in (((), 1, False), ((3,), 2, False), ((), 2, True)):
+            if meth == "gmres" and (withE or ba1):
+                continue
+            A1 = 2.0 + torch.rand(*ba1, 1, 1, dtype=torch.float64, generator=gz)
+            B1 = torch.randn(*ba1, 1, nc1, dtype=torch.float64, generator=gz)
+            E1 = -torch.rand(nc1, dtype=torch.float64, generator=gz) if withE else None
+            try:
+                X, warned = run(lambda: solve(xt.LinearOperator.m(A1, is_hermitian=True), B1, E1, method=meth))
+            except Exception as e:
+                ctx.fail("oracle", "solve:%s:1x1:exception" % meth, {"A_batch": list(ba1), "ncols": nc1, "E": withE}, repr(e)[:300], "a solution")
+                continue
+            ctx.count(("1x1", meth, ba1, nc1, withE))
+            ref1 = B1 / (A1 - (E1 if withE else 0.0))
+            if meth == "gmres" and warned:
+                continue                       # the property asks gmres only for a warning when it did not converge
+            if warned or not float((X - ref1).abs().max()) <= 1e-5 * float(ref1.abs().max()):
+                ctx.fail("oracle", "solve:%s:1x1" % meth, {"A_batch": list(ba1), "ncols": nc1, "E": withE, "options": "defaults"},
+                         {"warned": warned, "max_error": float((X - ref1).abs().max())}, "silent convergence of a 1 x 1 system")
     # normal-equation fallback with a complex shift (the adjoint needs conj(E))
     g = torch.Generator().manual_seed(11)
     Ac = 0.3 * torch.randn(4, 4, dtype=torch.complex128, generator=g) + 2.0 * torch.eye(4, dtype=torch.complex128)
